@@ -187,7 +187,9 @@ func runC13(c *Ctx) {
 		"a bookmark was seen":  FactEdge("nonnil(free:*.Bookmark)", "nonnil(*free:var:[]byte)"),
 		"context still alive":  FactEdge("nil(call:(context.Context).Err(free:param#1))"),
 		"backoff not exhausted": func(e EdgeInfo) bool {
-			return strings.HasPrefix(e.Facts[0], "ne(call:(*github.com/cenkalti/backoff/v4.ExponentialBackOff).NextBackOff(")
+			return AnyFact(e, func(f string) bool {
+				return strings.HasPrefix(f, "ne(call:(*github.com/cenkalti/backoff/v4.ExponentialBackOff).NextBackOff(")
+			})
 		},
 	})
 
@@ -296,7 +298,7 @@ func runC13(c *Ctx) {
 	}
 	c.MustFollow("R13.5", "between two receives the batch is delivered (or was empty / the goroutine ended)", wa, callRecv, callRecv, CutSpec{Nodes: p.CallTo(gSend), Edges: func(e EdgeInfo) bool {
 		// an empty batch on the single-event channel has nothing to send: the range loop's exit edge
-		return strings.HasPrefix(e.Facts[0], "ge((phi(") && strings.Contains(e.Facts[0], "builtin.len(")
+		return AnyFact(e, func(f string) bool { return strings.HasPrefix(f, "ge((phi(") && strings.Contains(f, "builtin.len(") })
 	}}, 1)
 
 	// the loop over msg.Event has no `continue`/skip that bypasses the append other than through sendError+return
